@@ -56,6 +56,47 @@ def arm_paths(gf, fn, arm_prefix):
     return out
 
 
+def try_blocks_kept(repo, chk, rule):
+    """A try block whose body calls a defeat function ANYWHERE (statement, initialiser, condition, argument, nested block)
+    is still a try block with its handler after typechecking: the typechecker records DEFEAT only for statement-level
+    defeat calls, so "the body cannot be defeated" is not something it can conclude from the exit modes.  Catalogue programs
+    are parsed and typechecked by the checker's interpreter (hidverif.frontend)."""
+    from ..frontend import Frontend, typecheck, walk_nodes
+    fe = Frontend(repo)
+    prelude = ('int !pick(int n) { if (n > 2) { !is_defeat(); } return n; }\n'
+               'bool !small(int n) { if (n > 2) { !is_defeat(); } return true; }\n'
+               'empty !deep(int n) { !pick(n); }\n')
+    cat = []
+    for handler in ('undo { write(1); }', 'stop { write(1); }'):
+        for body in ('int v = !pick(1);', 'if (!small(1)) { write(2); }', 'write(!pick(2));', '!pick(3);', '!deep(3);',
+                     'while (!small(1)) { break; }', 'if (true) { int w = !pick(1) + 1; }', 'int a[!pick(1)];',
+                     'for (int i = !pick(0); i < 1; i += 1) { }', 'bool q = !small(1) and false;', 'int z = [!pick(1), 2].length;'):
+            cat.append((f'try {{ {body} }} {handler}', 1))
+    cat += [('try { } undo { write(1); }', 0), ('try { int v = 1; write(v); } stop { }', 0)]
+    n = 0
+    bad = []
+    for stmt, need in cat:
+        res = typecheck(fe, prelude + 'empty @is_you() { ' + stmt + ' write(9); }')
+        n += 1
+        if isinstance(res, tuple):
+            bad.append((stmt, f'the catalogue program does not typecheck: {res[1]}: {res[2]}'))
+            continue
+        entry = [f for f in res.func_decls if getattr(f.name, 'base_name', '') == 'is_you']
+        tries = [x for x in walk_nodes(entry[0].body) if type(x).__name__ == 'TryBlock'] if entry else []
+        ok = len(tries) >= need and all(type(t.handler).__name__ in ('UndoBlock', 'StopBlock') for t in tries)
+        if ok and need:
+            calls = [x for t in tries for x in walk_nodes(t.body) if type(x).__name__ == 'FuncCall' and
+                     getattr(getattr(x.func, 'flavor', None), 'name', '') == 'DEFEAT']
+            ok = bool(calls)
+        if not ok:
+            bad.append((stmt, f'{len(tries)} try blocks left in the typed tree: a defeat in the body would find no handler'))
+    for stmt, why in bad[:4]:
+        chk.fail(rule, f'`{stmt}`', why, 'hidc/ast/blocks.py')
+    if not bad:
+        chk.ok(rule, 'try blocks survive typechecking', f'{n} programs')
+    return n
+
+
 def run(repo, chk):
     chk.explanation = (
         'The time-travel constructs are lowered by five fixed instruction templates.  This check decides the '
@@ -82,6 +123,10 @@ def run(repo, chk):
                        'guards, so entering the handler skips no committed-path effect (shared with C03.J1/J2)')
     chk.rule('C02.T10', 'execution continues after a handler: TryBlock.exit_modes merges the handler modes for all 32 body mode '
                         'sets (shared with C16.E1)')
+    chk.rule('C02.T11', 'a try block with a defeat call anywhere in its body is still a try block with its handler after '
+                        'typechecking (catalogue of nesting positions, typechecked by interpretation)')
+    if chk.__class__.__name__ == 'Check':
+        chk.floor('try-block programs', try_blocks_kept(repo, chk, 'C02.T11'), 20)
     gf = GenFacts(repo)
     # every Turing-jump decision (undo, preempt, ??) rests on branch targets re-checking the exact inverse condition
     chk.rule('C02.T8', 'the inverse-halt table is the exact logical involution and mnemonics are right (shared with C03.J3)')
